@@ -2021,8 +2021,15 @@ static void DecodeEX(Word Index) {
         BAsmCode[0] = 0x08;
         CodeLen     = 1;
     } else if (ParPair("(SP)", "HL")) {
-        BAsmCode[0] = 0xe3;
-        CodeLen     = 1;
+        if (MomCPU == CPUR2000) /* E3 is EX DE',HL on the Rabbit */
+        {
+            BAsmCode[0] = 0xed;
+            BAsmCode[1] = 0x54;
+            CodeLen     = 2;
+        } else {
+            BAsmCode[0] = 0xe3;
+            CodeLen     = 1;
+        }
     } else if (ParPair("(SP)", "IX")) {
         BAsmCode[0] = IXPrefix;
         BAsmCode[1] = 0xe3;
